@@ -112,6 +112,8 @@ def _probe():
                 after = {k: _canon(k, v) for k, v in vars(r).items() if k != "snap"}
                 if sname == "plain":
                     for k in sorted(after):
+                        if k in ("stdout", "stderr"):
+                            continue  # how much was captured before a worker died / the kill landed is a matter of timing
                         if after[k] != fresh["plain"].get(k) and (dname, k) not in dirtied:
                             dirtied.append((dname, k))
                 r.run("true", **kw)
